@@ -19,11 +19,8 @@ Section Dict.
   Definition dhas (k : str) (d : list (str * V)) : bool :=
     match dget k d with Some _ => true | None => false end.
   (* del d[k] *)
-  Fixpoint ddel (k : str) (d : list (str * V)) : list (str * V) :=
-    match d with
-    | [] => []
-    | (k', v) :: r => if str_eqb k k' then r else (k', v) :: ddel k r
-    end.
+  Definition ddel (k : str) (d : list (str * V)) : list (str * V) :=
+    filter (fun kv => negb (str_eqb k (fst kv))) d.
   (* d.update(e) *)
   Definition dupdate (d e : list (str * V)) : list (str * V) :=
     fold_left (fun acc kv => dset (fst kv) (snd kv) acc) e d.
